@@ -193,12 +193,31 @@ def problems(h, members, form, attr, via):
     with patched():
         prefix, props = assist(Project(['/r']), text, cur, mainp)
         loc = location(Project(['/r']), text, (cur[0], cur[1] + 1), mainp)
+    bad = judge(props, loc, order, class_attrs, inst_attrs, inst_sites, class_site, where, a, via, '')
+    if form != 'same' and len(HIER[h]) > 1:
+        # the same two requests on a long-lived project (as the server keeps one) that has already answered a
+        # request through the other access path: the class objects of lib.py are shared between the requests
+        other = 'class' if via != 'class' else 'instance'
+        wfiles, _, wcur, _ = build(h, members, form, attr, other)
+        with patched():
+            p = Project(['/r'])
+            assist(p, wfiles[mainp], wcur, mainp)
+            location(p, wfiles[mainp], (wcur[0], wcur[1] + 1), mainp)
+            prefix, props = assist(p, text, cur, mainp)
+            loc = location(p, text, (cur[0], cur[1] + 1), mainp)
+        bad += judge(props, loc, order, class_attrs, inst_attrs, inst_sites, class_site, where, a, via,
+                     ' (after a request through the %s on the same project)' % other)
+    return bad
+
+
+def judge(props, loc, order, class_attrs, inst_attrs, inst_sites, class_site, where, a, via, note):
+    bad = []
     want = set(class_attrs)
     if via != 'class':
         want |= inst_attrs
     missing = sorted(want - set(props))
     if missing:
-        bad.append('attribute proposals lack %r (source-defined along the MRO %r)' % (missing, [CN[c] for c in order]))
+        bad.append('attribute proposals lack %r (source-defined along the MRO %r)%s' % (missing, [CN[c] for c in order], note))
     flat = []
     for x in loc:
         flat.extend(x if isinstance(x, list) else [x])
@@ -206,13 +225,112 @@ def problems(h, members, form, attr, via):
     if via != 'class' and inst_sites:
         exp = set(where[s] for s in inst_sites)
         if not got or not got <= exp:
-            bad.append('definition of .%s: expected the instance assignment(s) %r, got %r' % (a, sorted(exp), sorted(got)))
+            bad.append('definition of .%s: expected the instance assignment(s) %r, got %r%s' % (a, sorted(exp), sorted(got), note))
     elif class_site is not None:
         exp = {where[class_site]}
         if got != exp:
-            bad.append('definition of .%s: Python finds it in class %s at %r, supp answers %r'
-                       % (a, CN[class_site[0]], sorted(exp), sorted(got)))
+            bad.append('definition of .%s: Python finds it in class %s at %r, supp answers %r%s'
+                       % (a, CN[class_site[0]], sorted(exp), sorted(got), note))
     return bad
+
+
+# ---- descriptor-decorated methods: obj.attr is what the method returns (property, a descriptor class with its own
+# __get__, descriptor classes that inherit __get__ over 1..2 levels, the base descriptor in another module)
+DESCR = ['class Da(object):', '    def __init__(self, f):', '        self.f = f', '    def __get__(self, obj, cls):',
+         '        return self.f(obj)']
+DKINDS = ('property', 'own', 'inherit1', 'inherit2', 'inherit_lib')
+
+
+def chain_build(dk, depth, form, via):
+    kind = DKINDS[dk]
+    lib = []
+    main = []
+    eng = ['class Eng(object):', '    zz = 1']
+    deco = {'property': 'property', 'own': 'Da', 'inherit1': 'Db', 'inherit2': 'Dc', 'inherit_lib': 'Db'}[kind]
+    dcls = []
+    if kind != 'property':
+        dcls += DESCR
+    if kind in ('inherit1', 'inherit2', 'inherit_lib'):
+        dcls += ['class Db(Da):', '    pass']
+    if kind == 'inherit2':
+        dcls += ['class Dc(Db):', '    pass']
+    ka = ['class Ka(object):', '    @' + deco, '    def aa(self):', '        return Eng()']
+    if kind == 'inherit_lib':
+        # the base descriptor lives in lib.py, its subclass in the edited file
+        lib += DESCR
+        main += ['from lib import Da', 'class Db(Da):', '    pass']
+        dcls = []
+    if form == 0:
+        main += eng + dcls + ka
+        engline = (main.index('class Eng(object):') + 2, '/r/main.py')
+    else:
+        lib += eng + dcls + ka if kind != 'inherit_lib' else eng
+        if kind == 'inherit_lib':
+            main = ['from lib import Da, Eng', 'class Db(Da):', '    pass'] + ka
+        else:
+            main += ['from lib import *']
+        engline = (lib.index('class Eng(object):') + 2, '/r/lib.py')
+    last = 'Ka'
+    for d in range(depth):
+        new = ('Kb', 'Kc')[d]
+        main += ['class %s(%s):' % (new, last), '    bb = %d' % d]
+        last = new
+    if via == 0:
+        main += ['obj = %s()' % last, 'obj.aa.zz']
+        cur = (len(main), 7)
+    else:
+        main += ['class Probe(%s):' % last, '    def probe(self):', '        self.aa.zz']
+        cur = (len(main), 16)
+    files = {'/r/main.py': '\n'.join(main) + '\n'}
+    if lib:
+        files['/r/lib.py'] = '\n'.join(lib) + '\n'
+    return files, cur, (engline[1], engline[0], 4), last
+
+
+def chain_oracle(dk, depth):
+    """under CPython the attribute is the object the method returns"""
+    files, cur, eng, last = chain_build(dk if DKINDS[dk] != 'inherit_lib' else 2, depth, 0, 0)
+    ns = {}
+    text = '\n'.join(files['/r/main.py'].split('\n')[:-2]) + '\n'
+    exec(compile(text, 'oracle.py', 'exec'), ns)
+    v = ns['obj'].aa
+    return type(v).__name__ == 'Eng' and 'zz' in vars(type(v))
+
+
+def chain_problems(dk, depth, form, via):
+    files, cur, eng, last = chain_build(dk, depth, form, via)
+    if not chain_oracle(dk, depth):
+        return ['oracle: CPython does not evaluate obj.aa to an Eng']
+    FS.clear()
+    FS.update(files)
+    text = files['/r/main.py']
+    with patched():
+        prefix, props = assist(Project(['/r']), text, cur, '/r/main.py')
+        loc = location(Project(['/r']), text, (cur[0], cur[1] + 1), '/r/main.py')
+    bad = []
+    if 'zz' not in props:
+        bad.append('%s().aa is the Eng the %s-decorated method returns; proposals after .aa. lack zz: %r' % (last, DKINDS[dk], props[:6]))
+    flat = []
+    for x in loc:
+        flat.extend(x if isinstance(x, list) else [x])
+    got = set((x['file'], x['loc'][0], x['loc'][1]) for x in flat)
+    if got != {eng}:
+        bad.append('definition of .aa.zz: Python finds Eng.zz at %r, supp answers %r' % (eng, sorted(got)))
+    return bad
+
+
+def check_chain(dk: int, depth: int, form: int, via: int) -> bool:
+    """
+    pre: 0 <= dk <= 4 and 0 <= depth <= 2 and 0 <= form <= 1 and 0 <= via <= 1
+    post: _
+    """
+    PATHS[0] += 1
+    from crosshair.tracers import NoTracing
+    dk, depth, form, via = _c(dk, 0, 4), _c(depth, 0, 2), _c(form, 0, 1), _c(via, 0, 1)
+    with NoTracing():
+        if TWIN[0]:
+            return False
+        return not chain_problems(dk, depth, form, via)
 
 
 def _c(v, lo, hi):
